@@ -1,5 +1,6 @@
 import SszModel.Text
 import SszModel.Serde
+import SszModel.BitPool
 /-
   The bitfield pool machine of the `bitops` correspondence group: a history of operations over a
   pool of bitfields (operands are earlier results), with the observation printed after every step.
@@ -30,96 +31,37 @@ def obs (k : BKind) (bf : BF) : String :=
 
 def bfStr (bf : BF) : String := "b" ++ bitsStr bf.abs ++ " " ++ toString bf.len
 
-def newOf (k : BKind) (n : Nat) : Option BF :=
-  match k with
-  | .variable N => BF.withCapacity N n
-  | .fixed N => some (BF.newFixed N)
-  | .dynamic => BF.newDyn n
-
-/-- construct from a bit string by `with_capacity`/`new` followed by `set` -/
-def ofBitsK (k : BKind) (l : List Bool) : Option BF :=
-  match newOf k l.length with
-  | none => none
-  | some bf => if bf.len != l.length then none else
-      (List.range l.length).foldl (fun acc i => acc.bind fun b => b.set i (l.getD i false)) (some bf)
-
-def unionK (k : BKind) (a b : BF) : Res BF :=
-  match k with
-  | .variable N => BF.unionV N a b
-  | .fixed N => .ok (BF.unionF N a b)
-  | .dynamic => Res.ofOption (BF.unionD a b)
-
-def interK (k : BKind) (a b : BF) : Res BF :=
-  match k with
-  | .variable N => BF.intersectionV N a b
-  | .fixed N => BF.intersectionF N a b
-  | .dynamic => Res.ofOption (BF.intersectionD a b)
-
-def stepOp (k : BKind) (pool : Array BF) (op : List String) : Array BF × String :=
-  let get (s : String) : Option BF := s.toNat?.bind fun i => pool[i]?
-  let push (r : Res BF) : Array BF × String :=
-    match r with
-    | .ok bf => (pool.push bf, obs k bf)
-    | .err => (pool, "err")
-    | .panic => (pool, "panic")
+def parseOp (op : List String) : Option BOp :=
   match op with
-  | ["cap", n] => match n.toNat? with
-    | some n => push (Res.ofOption (newOf k n))
-    | none => (pool, "bad-op")
-  | ["bits", b] => match parseBits b with
-    | some l => push (Res.ofOption (ofBitsK k l))
-    | none => (pool, "bad-op")
-  | ["from", hex] => match fromHex hex with
-    | some b => push (BF.fromBytes k b)
-    | none => (pool, "bad-op")
-  | ["set", r, i, v] => match r.toNat?, get r, i.toNat? with
-    | some ri, some bf, some i =>
-      (match bf.set i (v == "1") with
-       | some bf' => (pool.set! ri bf', "ok " ++ obs k bf')
-       | none => (pool, "err " ++ obs k bf))
-    | _, _, _ => (pool, "bad-op")
-  | ["get", r, i] => match get r, i.toNat? with
-    | some bf, some i => (pool, match bf.get i with | some b => toString b | none => "err")
-    | _, _ => (pool, "bad-op")
-  | ["shift", r, n] => match r.toNat?, get r, n.toNat? with
-    | some ri, some bf, some n =>
-      (match bf.shiftUp n with
-       | .ok bf' => (pool.set! ri bf', "ok " ++ obs k bf')
-       | .err => (pool, "err " ++ obs k bf)
-       | .panic => (pool, "panic"))
-    | _, _, _ => (pool, "bad-op")
-  | ["diffin", r, s] => match r.toNat?, get r, get s with
-    | some ri, some a, some b =>
-      let a' := a.differenceInplace b
-      (pool.set! ri a', "ok " ++ obs k a')
-    | _, _, _ => (pool, "bad-op")
-  | ["clone", r] => match get r with
-    | some bf => push (.ok bf)
-    | none => (pool, "bad-op")
-  | ["redec", r] => match get r with
-    | some bf => push ((bf.intoBytes k).bind fun b => BF.fromBytes k b)
-    | none => (pool, "bad-op")
-  | ["union", r, s] => match get r, get s with
-    | some a, some b => push (unionK k a b)
-    | _, _ => (pool, "bad-op")
-  | ["inter", r, s] => match get r, get s with
-    | some a, some b => push (interK k a b)
-    | _, _ => (pool, "bad-op")
-  | ["diff", r, s] => match get r, get s with
-    | some a, some b => push (.ok (a.difference b))
-    | _, _ => (pool, "bad-op")
-  | ["subset", r, s] => match get r, get s with
-    | some a, some b => (pool, toString (a.isSubset b))
-    | _, _ => (pool, "bad-op")
-  | ["eq", r, s] => match get r, get s with
-    | some a, some b => (pool, toString (decide (a = b)))
-    | _, _ => (pool, "bad-op")
-  | _ => (pool, "bad-op")
+  | ["cap", n] => n.toNat?.map BOp.cap
+  | ["bits", b] => (parseBits b).map BOp.bits
+  | ["from", hex] => (fromHex hex).map BOp.fromBytes
+  | ["set", r, i, v] => do let r ← r.toNat?; let i ← i.toNat?; pure (BOp.set r i (v == "1"))
+  | ["get", r, i] => do let r ← r.toNat?; let i ← i.toNat?; pure (BOp.get r i)
+  | ["shift", r, n] => do let r ← r.toNat?; let n ← n.toNat?; pure (BOp.shift r n)
+  | ["diffin", r, s] => do let r ← r.toNat?; let s ← s.toNat?; pure (BOp.diffin r s)
+  | ["clone", r] => r.toNat?.map BOp.clone
+  | ["redec", r] => r.toNat?.map BOp.redec
+  | ["union", r, s] => do let r ← r.toNat?; let s ← s.toNat?; pure (BOp.union r s)
+  | ["inter", r, s] => do let r ← r.toNat?; let s ← s.toNat?; pure (BOp.inter r s)
+  | ["diff", r, s] => do let r ← r.toNat?; let s ← s.toNat?; pure (BOp.diff r s)
+  | ["subset", r, s] => do let r ← r.toNat?; let s ← s.toNat?; pure (BOp.subset r s)
+  | ["eq", r, s] => do let r ← r.toNat?; let s ← s.toNat?; pure (BOp.eq r s)
+  | _ => none
+
+def outStr (k : BKind) : BOut → String
+  | .pushed bf => obs k bf
+  | .mutated ok bf => (if ok then "ok " else "err ") ++ obs k bf
+  | .flag b => toString b
+  | .bit (some b) => toString b
+  | .bit none => "err"
+  | .err => "err"
+  | .panic => "panic"
+  | .badRef => "bad-op"
 
 def runBitOps (k : BKind) (ops : String) : String :=
-  let (_, outs) := (ops.splitOn ";").foldl (fun (acc : Array BF × List String) op =>
-    let (pool, o) := stepOp k acc.1 (op.splitOn " ")
-    (pool, o :: acc.2)) (#[], [])
-  ";".intercalate outs.reverse
+  match (ops.splitOn ";").mapM (fun op => parseOp (op.splitOn " ")) with
+  | none => "bad-op"
+  | some bops => ";".intercalate ((BPool.run k [] bops).2.map (outStr k))
 
 end Ssz.Text
